@@ -98,7 +98,7 @@ class IndexTie(Tie):
         raw = _parallel(lambda cs: Tie.run_impl(self, cpp, cs), cases, 3)
         outs = []
         for c, o in zip(cases, raw):
-            if " ||" in o:
+            if " ||" in o and not o.startswith(("CRASH", "EXC")):
                 obs, tr = o.split(" ||", 1)
                 self._tr[c] = tr.strip()
                 outs.append(Obs(obs.strip()))
@@ -222,8 +222,9 @@ def _history(rng, nops, allow_restart):
         elif r < 0.75:
             ops.append("flush"); dirty = False
         elif r < 0.85 and allow_restart and not down:
-            if dirty:
-                ops.append("flush"); dirty = False
+            # always commit before the index object goes away: a start may have synced blocks whose commit was skipped
+            # (Commit requires the index tip to be an ancestor of the last flushed block), see FINDING_CASES
+            ops.append("flush"); dirty = False
             ops.append("stop"); down = True
         else:
             ops.append("chk" if rng.random() < 0.7 else "chk:%d" % rng.choice([1, 2, 5, 50]))
@@ -241,6 +242,9 @@ FINDING_CASES = [
     # BlockFilterIndex::CustomInit / CustomRemove read the height index only -> Init fails
     "ix start:c mine:2 flush inval:2 mine:3 stop start:c chk",
     "ix start:f mine:2 flush inval:2 mine:3 stop start:f chk",
+    # the same after a clean stop: reorg while the index is down, restart (the index syncs across the reorg but its commit is
+    # skipped because the chainstate was not flushed since), second restart
+    "ix start:c flush stop inval:2 mine:3 start:c chk stop start:c chk",
 ]
 
 
